@@ -78,12 +78,19 @@ Stage(p, o, where) ==    \* git add in the main or in the linked worktree; the i
   /\ UNCHANGED <<commits, br, rr, rt, head, server, everRemote, stashed, pruned, wt, rt2>>
   /\ Log([a |-> "stage", p |-> p, oid |-> o, where |-> where])
 
-Stash(p, o) ==            \* edit p to content o, git stash
-  /\ br[head] # NoCommit /\ Clean /\ TreeOf(br[head])[p] \notin {o, "none"}
+\* git stash in three shapes: a stash is a merge commit whose own diff shows the work-tree change, whose
+\* second parent holds the index and whose third parent (stash -u) holds the untracked files
+\*   "worktree"   edit p to content o; git stash
+\*   "index"      edit p to content o; git add; delete the working file; git stash   (o only in the index commit)
+\*   "untracked"  a new file p with content o; git stash -u                          (o only in the untracked commit)
+StashKinds == {"worktree", "index", "untracked"}
+Stash(p, o, kind) ==
+  /\ kind \in StashKinds /\ br[head] # NoCommit /\ Clean /\ TreeOf(br[head])[p] # o
+  /\ (kind = "untracked") = (TreeOf(br[head])[p] = "none")
   /\ stashed' = stashed \cup {o}
   /\ local' = IF local[o] = "absent" THEN [local EXCEPT ![o] = "valid"] ELSE local
   /\ UNCHANGED <<commits, br, rr, rt, head, server, everRemote, staged, stagedIn, pruned, wt, rt2>>
-  /\ Log([a |-> "stash", p |-> p, oid |-> o])
+  /\ Log([a |-> "stash", p |-> p, oid |-> o, kind |-> kind])
 
 AddWorktree(b) ==        \* git worktree add ../linked b  (a branch can be checked out only once)
   /\ wt = "none" /\ br[b] # NoCommit /\ b # head /\ wt' = b
@@ -138,7 +145,7 @@ PMerge(b, o)           == Hist /\ b # wt /\ Merge(b, o)
 PPush(S)               == Hist /\ Push(S, "git-push", {}, FALSE)
 POtherPush(b)          == Hist /\ OtherPush(b)
 PStage(p, o, where)    == Keep /\ Stage(p, o, where)
-PStash(p, o)           == Keep /\ Stash(p, o)
+PStash(p, o, k)        == Keep /\ Stash(p, o, k)
 PServerLoses(o)        == Keep /\ ServerLoses(o)
 PSwitch(b)             == Keep /\ Switch(b)
 PWorktree(b)           == Keep /\ AddWorktree(b)
@@ -151,7 +158,7 @@ PNext == \/ \E b \in Branches, p \in Paths, blob \in Blobs, g \in Ages : PCommit
          \/ \E S \in SUBSET Branches : PPush(S)
          \/ \E b \in Branches : POtherPush(b)
          \/ \E p \in Paths, o \in Oids, where \in {"main", "linked"} : PStage(p, o, where)
-         \/ \E p \in Paths, o \in Oids : PStash(p, o)
+         \/ \E p \in Paths, o \in Oids, k \in StashKinds : PStash(p, o, k)
          \/ \E o \in Oids : PServerLoses(o)
          \/ \E b \in Branches : PSwitch(b)
          \/ \E b \in Branches : PWorktree(b)
